@@ -346,10 +346,13 @@ def _diode_stages(cmd):
     return f
 
 
-_DIODE_COMMON = ("seeded noisy runs (P 1-4/8 producers x 1-6 writes, ring size in {1,2,3,4,8}, waiter and poller mode, payloads crossing the 500 B and 64 KiB "
+_DIODE_COMMON = ("seeded noisy runs (P 1-4/8 producers x 1-6 writes, ring size in {1,2,3,4,8}, or up to 50 writes each on rings of 16 and 100; GOMAXPROCS 1, 2 or all; "
+                 "a nil alerter, an alerter that logs through the same diode, a wrapped writer that refuses or half-accepts some messages; waiter and poller mode, payloads crossing the 500 B and 64 KiB "
                  "pool thresholds, Gosched/sleep noise injected at the verif-tagged hook points before/after every atomic, mutex/cond and context "
                  "operation of diode/internal/diodes), a systematic sweep pausing the k-th arrival (k<=3) at every hook point until the other side made a "
-                 "step, and directed scenarios; under the race detector half of the noisy runs are executed with the hook silent so that the hook's own "
+                 "step (Close at quiescence and Close at once), every consumer-side point held until all producers returned so that whole laps pass, "
+                 "and directed scenarios (drain race, Write+Close between the cancellation check and TryNext, lost-CAS hole, first-lap overtake, "
+                 "two producers one lap apart racing for one slot in both orders, Close of an unused diode, ...); under the race detector half of the noisy runs are executed with the hook silent so that the hook's own "
                  "mutex adds no happens-before edges. Evidence reports distinct hook-event interleavings and how often each named window occurred.")
 
 CHECKS["C10"] = dict(
@@ -358,7 +361,9 @@ CHECKS["C10"] = dict(
                 "(join, else goroutine-state oracle); each delivered buffer is byte-identical (crc + length) to exactly one Write argument, unchanged "
                 "during the wrapped Write, never delivered twice, one delivery in flight at a time; the delivery order is checked exactly against the "
                 "lossy-FIFO specification via the interval-order criterion, with porcupine as a second opinion on histories of <= 20 operations; "
-                "sum(alerts) <= ring positions claimed; race detector."),
+                "sum(alerts) <= ring positions claimed and distinct deliveries + sum(alerts) <= positions claimed; a producer that makes more attempts inside "
+                "one Write than all other parties could have caused (hook counter) is spinning = blocked; Writes issued while Close runs and after it "
+                "returned must return too (no park, no spin, no panic); race detector."),
     technique="runtime monitoring: hook-injected noise/pauses, recorded call/return and delivery histories, interval-order linearizability test + porcupine, race detector",
     stages=_diode_stages("c10"),
     rule=("one case = one diode run; non-trivial = more than one producer or at least one named window observed; distinct_nontrivial = distinct "
@@ -366,7 +371,8 @@ CHECKS["C10"] = dict(
     assumptions=["exhaustive enumeration of schedules at atomic-operation granularity is NOT delivered (that is model checking); reach comes from seeded "
                  "noise, the single-pause sweep, real parallelism and the race detector",
                  "which messages are dropped when the ring is lapped is not constrained"],
-    require=dict(noisy_runs=500, hook_events=10000),
+    require=dict(noisy_runs=500, hook_events=10000, runs_with_window_cas_lost=20, runs_with_window_collision_with_newer_bucket=20, runs_with_window_lap_alert=50,
+                 runs_with_writes_during_and_after_close=20, runs_lapping_with_nil_alerter=5, runs_where_the_alerter_wrote_to_the_diode=10, consumer_points_held_across_laps=50),
 )
 
 CHECKS["C11"] = dict(
@@ -374,14 +380,17 @@ CHECKS["C11"] = dict(
     level_text=("conservation monitor over the same kind of runs: " + _DIODE_COMMON + " After every Write and Close returned: messages whose Write "
                 "returned before Close was called and that were not delivered must be covered by the alerter's counts; delivered + reported == written "
                 "whenever the number of claimed ring positions equals the number of Writes; no drop at all while fewer than ring-size messages were "
-                "outstanding on the logical clock; directed drain-race / lost-CAS hole / first-lap overtake scenarios in both modes; the Fatal path is "
-                "observed in child processes through five writer wrappings."),
+                "outstanding on the logical clock; per position (replayed from the hook trace): every stored ring position was taken by the consumer or "
+                "lies in a range it skipped with an alert, so a loss cannot hide behind alerts for abandoned positions; only deliveries that entered "
+                "the wrapped writer before Close returned count, and none may come after the wrapped writer's own Close; directed drain-race / lost-CAS "
+                "hole / first-lap overtake scenarios in both modes; the Fatal path is observed in child processes (waiter and poller mode, Msg / Msgf / "
+                "Send / MsgFunc, eleven writer wrappings, with and without other goroutines logging)."),
     technique="runtime monitoring: conservation accounting (written = delivered + reported) over hook-instrumented noisy/directed runs, child-process Fatal path",
     stages=_diode_stages("c11"),
     rule=("one case = one diode run (Close is called right after the producers return in half of the noisy runs); non-trivial as for C10; "
           "distinct_nontrivial = distinct event-sequence hashes"),
     assumptions=["same reach limits as C10", "reported counts may exceed the number of lost messages when positions were retried (the statement allows >=)"],
-    require=dict(noisy_runs=500, runs_without_retry=100, runs_below_capacity=50, fatal_path_cases=20),
+    require=dict(noisy_runs=500, runs_without_retry=100, runs_below_capacity=50, fatal_path_cases=20, runs_where_wrapped_close_was_called=500, consumer_points_held_across_laps=50),
 )
 
 CHECKS["C12"] = dict(
@@ -389,7 +398,10 @@ CHECKS["C12"] = dict(
     level_text=("bounded-progress monitor with a stuck-state oracle: " + _DIODE_COMMON + " After all Writes returned and with no further Write or "
                 "Close, either the consumer passes the last claimed ring position, or a stable blocked state is observed: the consumer goroutine parked "
                 "in sync.Cond.Wait (from runtime.Stack), or >= 1000 empty polling steps without progress in poller mode, while claimed positions remain "
-                "- that is the violation; Close must return (else Close parked on done with the consumer parked). Wall-clock limits only produce "
+                "- that is the violation; the same quiescence verdict is taken in the middle of paced single-producer runs (a later Write must not be needed); a consumer parked "
+                "in any other primitive with work pending is confirmed by a second look with no hook event in between. Close must return, also when "
+                "called twice or from two goroutines (else: Close parked on done with the consumer parked outside the harness's own frames, or the "
+                "consumer counted calling TryNext far more often after cancellation than positions were ever claimed). Wall-clock limits only produce "
                 "'inconclusive'. (The lost wake-up of the original condition-variable Waiter was first a known finding and is now repaired by fix 5e93c03; "
                 "its signature is no longer suppressed.)"),
     technique="runtime monitoring: goroutine wait-state oracle + hook counters for bounded progress, directed lost-wake-up / cancel / hole scenarios",
@@ -397,5 +409,5 @@ CHECKS["C12"] = dict(
     rule=("one case = one diode run judged at quiescence and again at Close; non-trivial as for C10; distinct_nontrivial = distinct event-sequence hashes"),
     assumptions=["'eventually delivered' is restated as: after quiescence the consumer reaches every claimed position or is observed in a state only a new "
                  "event could end", "same reach limits as C10"],
-    require=dict(noisy_runs=500, runs_reaching_quiescence_with_full_progress=300, directed_windows_reached=5),
+    require=dict(noisy_runs=500, runs_reaching_quiescence_with_full_progress=300, directed_windows_reached=5, runs_closing_twice=50, consumer_points_held_across_laps=50),
 )
